@@ -92,6 +92,10 @@ fn pan_in_scope(p: &Pan) -> bool {
 /// panic message without the parts that quote the input (slice errors embed the whole string)
 fn panic_class(msg: &str) -> String {
     let l = msg.lines().next().unwrap_or("");
+    // every way a `&str[a..b]` can fail is one class: which message appears depends on the input bytes
+    if l.starts_with("start byte index") || l.starts_with("end byte index") || l.starts_with("byte index") || l.starts_with("begin > end") || l.starts_with("begin <= end") {
+        return "string-slice-index".to_string();
+    }
     let mut cut = l.len();
     for pat in [" of `", " when slicing `", "; it is inside", " (bytes "] {
         if let Some(p) = l.find(pat) {
